@@ -14,7 +14,7 @@ from vlib import log
 LEVEL = "model_checking"
 
 API_EVS = {"reset", "new_writer", "drop_writer", "add", "del", "run", "delete_all", "commit", "prepare_commit",
-           "prepare_abort", "rollback", "merge", "wait_merges", "gc", "observe", "end"}
+           "prepare_abort", "rollback", "merge", "wait_merges", "gc", "observe", "end", "merge_uncommitted", "wait_uncommitted"}
 
 
 def api_events(events):
